@@ -156,9 +156,9 @@ def main(report, tier, seed, workers, calibrate=False):
         sl = S.slices()
         rungs = [dict(name='full', envs=[None], timeout=60 if tier == 'quick' else 300),
                  dict(name='slices:metric-value-fixed', envs=[sl[0][1], sl[1][1]],
-                      timeout=150 if tier == 'quick' else 900),
+                      timeout=300 if tier == 'quick' else 900),
                  dict(name='slices:metric-jets-fixed|gauge-fixed', envs=[sl[3][1], sl[4][1], sl[5][1]],
-                      timeout=150 if tier == 'quick' else 900)]
+                      timeout=300 if tier == 'quick' else 900)]
         process_jet(report, blk['run'], blk['obs'], rungs, sampler=S.sampler(), workers=workers,
                     calib=calib, seed=seed, verbose=bool(calibrate))
         report.extra.setdefault('branch_decisions', {})[blk['name']] = blk['ctx'].decision_queries
